@@ -64,6 +64,17 @@ def write_replay(prop: str, unit: str, ob, verif_root: str) -> Tuple[str, bool]:
             rec["falsifier"] = {"skipped": str(e)}
         except Exception as e:
             rec["falsifier"] = {"error": repr(e), "trace": traceback.format_exc()}
+    if not reproduced:
+        try:
+            from .falsify import falsify_typed
+
+            out = falsify_typed(unit, prop)
+            rec["typed_falsifier"] = out
+            reproduced = bool(out.get("clause_violated"))
+        except CannotReplay as e:
+            rec["typed_falsifier"] = {"skipped": str(e)}
+        except Exception as e:
+            rec["typed_falsifier"] = {"error": repr(e), "trace": traceback.format_exc()}
     rec["reproduced_natively"] = reproduced
     path = os.path.join(d, _safe(ob.name) + ".json")
     json.dump(rec, open(path, "w"), indent=1, default=str)
